@@ -1,3 +1,4 @@
+import copy
 import torch
 
 from ..domain import Domain, BoundaryDomain
@@ -156,8 +157,17 @@ class IntervalSingleBoundaryPoint(BoundaryDomain):
 
     def __call__(self, **data):
         evaluate_domain = self.domain(**data)
+        # the bound keeps its function, the given values become its defaults
+        # (in the shape of one parameter row), as for the evaluated interval
+        side = copy.deepcopy(self.side)
+        side.set_default(
+            **{
+                k: torch.as_tensor(v, dtype=torch.float32).reshape(1, -1)
+                for k, v in data.items()
+            }
+        )
         return IntervalSingleBoundaryPoint(
-            evaluate_domain, side=self.side, normal_vec=self.normal_vec
+            evaluate_domain, side=side, normal_vec=self.normal_vec
         )
 
     def _contains(self, points, params=Points.empty()):
